@@ -28,7 +28,7 @@ META = {
     "deciding": ["lookup:get_rates", "file:magnitudes", "file:total", "history:scaling", "invariant:data=_data*_scale"],
     "exhaustive_tiers": {"quick": {"scaling histories of length <= 3 over 9 operations (6 scalar, 3 array-valued factors)": True}, "thorough": {"scaling histories of length <= 4 over 9 operations (6 scalar, 3 array-valued factors)": True}},
 }
-META["added"] = 'Added: write_dat round trip, quadtree loaders, array-valued scale factors in the exhaustive histories, event_count must be the scalar total, anchors whose scaled value is one ulp below an integer. magnitudes just below a magnitude edge.'
+META["added"] = 'Added: write_dat round trip, quadtree loaders, array-valued scale factors in the exhaustive histories, event_count must be the scalar total, anchors whose scaled value is one ulp below an integer. magnitudes just below a magnitude edge. files with every cell flagged 0.'
 MANIFEST = {
     "technique": "invariant on live GriddedDataSet objects (data == _data*_scale, _data digest unchanged) evaluated after every public method + boundary recorder on the loaders and get_rates against a per-row writer model + sequential history checker for scale / scale_to_test_date (exhaustive short histories)",
     "level_text": "Generated forecast files (Cartesian and quadtree layouts) are loaded by the real loaders; for every row the rate returned at the row's lower corner (exactly the printed numbers), centre and just-above-face points must be that row's rate, flag-0 cells must lie outside the region, magnitudes must be the file's lower edges in order and totals/marginals must add up; all scaling histories up to length 3 (quick) / 4 (thorough) are enumerated against a two-line reference model while an invariant watches data == _data*_scale and the loaded array's digest.",
@@ -365,6 +365,8 @@ def run(ctx):
             case["lat"].update({"nx": 1, "ny": 1, "cells": [(0, 0)], "flags": None})
             case["nm"] = 1
             case["rates"] = [[0.37]]
+        elif j % 17 == 3:
+            case["lat"]["flags"] = [0] * len(case["lat"]["cells"])          # every cell flagged 0: nothing of the file lies inside the region
         ex_file(ctx, case, seed=j)
         if j % 3 == 0:
             ex_quadtree(ctx, "ascii" if j % 2 else "csv", seed=j + 1000 * ctx.shard)
